@@ -61,7 +61,9 @@ func verify(fileIO fileIO, parPath string, options VerifyOptions) (VerifyResult,
 		return VerifyResult{}, err
 	}
 
-	err = decoder.LoadParityData()
+	// A stale or foreign parity volume lying next to the set is
+	// unusable, not fatal.
+	err = decoder.loadParityData(true)
 	if err != nil {
 		return VerifyResult{}, err
 	}
